@@ -28,7 +28,7 @@ META = {
                    'Friedel pair without dispersion.  C08: F equals the harness\'s explicit sum over image atoms (R.x+t, tensor R.beta.R^T), lattice-shift '
                    'invariance, linearity in occupancy, Uiso == equivalent Uani, F(000) with zero ADP.',
     'functions': ['xfab.structure.StructureFactor', 'xfab.structure.Uij2betaij', 'xfab.structure.FormFactor', 'xfab.sg.sg.__init__'],
-    'bounds': {'hkl': 'concrete box |h|_inf <= 1 (quick) / 2 (thorough), plus (0,0,l),(h,0,0),(0,k,0) axis reflections up to 6', 'atoms': '1 symbolic atom (F is additive over atoms)',
+    'bounds': {'hkl': 'concrete box |h|_inf <= 1 (thorough: also box 2 for the quick selection of groups), plus (0,0,l),(h,0,0),(0,k,0) axis reflections up to 6', 'atoms': '1 symbolic atom (F is additive over atoms)',
                'groups': 'quick: one per Laue class and centring + trigonal/hexagonal/tetragonal groups with non-symmetric rotation matrices; thorough: all 230'},
     'outside_claim': ['hkl outside the box', 'rounding of tabulated thirds (idealised to exact twelfths on both sides)', 'interaction between several atoms beyond additivity'],
     'stubs': ['tools.sintl -> summary sqrt(h.G*.h)/2 (C01 lemma)', 'tools.cell_invert -> reciprocal lengths (C01)', 'numpy.exp -> uninterpreted atoms (congruence)',
@@ -57,7 +57,11 @@ def units(tier):
     us = []
     for g in groups:
         for adp in ('Uiso', 'Uani'):
-            us.append({'name': '%s/%s' % (g, adp), 'sg': g, 'adp': adp})
+            us.append({'name': '%s/%s' % (g, adp), 'sg': g, 'adp': adp, 'cost': 1})
+    if tier != 'quick':
+        # thorough: every group at box 1 (above) and the quick selection again at box 2
+        for g in QUICK_GROUPS:
+            us.append({'name': '%s/Uani/box2' % g, 'sg': g, 'adp': 'Uani', 'box2': True, 'cost': 5})
     if tier == 'quick':
         us.append({'name': 'Fd-3m/Uani', 'sg': 'Fd-3m', 'adp': 'Uani', 'few': True})
     us.append({'name': 'P21/c/None', 'sg': 'P21/c', 'adp': None})
@@ -209,7 +213,7 @@ def run_unit(u, desc, tier, seed):
             cache[key] = (lift(Fr), lift(Fi))
         return cache[key]
 
-    hs = box(tier, desc.get('few', False))
+    hs = box('thorough' if desc.get('box2') else 'quick', desc.get('few', False))
     pre = ctx.base()
     u.paths = 1
 
